@@ -617,14 +617,22 @@ PPL::CO_Tree::init(const dimension_type n) {
     const height_t new_max_depth = static_cast<height_t>(max_d);
     const dimension_type new_reserved_size
       = (static_cast<dimension_type>(1) << new_max_depth) - 1;
-    // If this throws, *this will be the empty tree.
-    indexes = new dimension_type[new_reserved_size + 2];
+    // If this throws, *this will be the empty tree
+    // (the cached iterators must not keep pointing into the old arrays).
+    try {
+      indexes = new dimension_type[new_reserved_size + 2];
+    }
+    catch (...) {
+      refresh_cached_iterators();
+      throw;
+    }
     try {
       data = data_allocator.allocate(new_reserved_size + 1);
     }
     catch (...) {
       delete[] indexes;
       indexes = nullptr;
+      refresh_cached_iterators();
       PPL_ASSERT(OK());
       throw;
     }
